@@ -16,7 +16,9 @@ def tz(mins):
 
 
 DATES = [datetime.datetime(2020, 1, 1, tzinfo=UTC), datetime.datetime(2021, 2, 28, 23, 59, 59, 999000, tzinfo=tz(-210)),
-         datetime.datetime(1999, 12, 31, 12, 0, 0, tzinfo=tz(330)), None]
+         datetime.datetime(1999, 12, 31, 12, 0, 0, tzinfo=tz(330)), None,
+         datetime.datetime(2022, 3, 4, 0, 10, 0, tzinfo=tz(-30)), datetime.datetime(2022, 3, 4, 23, 50, 0, 500000, tzinfo=tz(-44)),
+         datetime.datetime(2023, 7, 1, 0, 0, 0, tzinfo=tz(45)), datetime.datetime(2023, 7, 1, 6, 0, 0, tzinfo=tz(-1))]
 
 
 def mk_request(kind, rng, i):
@@ -57,6 +59,18 @@ def compose_and_check(it, fn, a):
         return ["versions 2xx must refuse to omit end tags"]
     password = rng.choice(TEXTS)
     reqs = [mk_request(k, rng, i) for i, k in enumerate(kinds)]
+    if seed % 3 == 0:
+        # "in every configuration" includes the configuration after other calls on the same client - successful or
+        # refused: a profile request with per-call overrides, an account-information request
+        for other in (203, 102, 220):
+            try:
+                client.request_profile(version=other, prettyprint=not pretty, close_elements=(other >= 200) or not close, dryrun=True)
+            except Exception:
+                pass
+        try:
+            client.request_accounts(password, datetime.datetime(2020, 1, 1, tzinfo=UTC), dryrun=True)
+        except Exception:
+            pass
     data = client.request_statements(password, *reqs, dryrun=True).read()
     tree = OFXTree()
     tree.parse(io.BytesIO(data))
